@@ -1,4 +1,4 @@
 SPECIFICATION Spec
-CONSTANT MaxN = 6
+CONSTANTS MaxN = 6  AsCode = FALSE
 INVARIANT Same
 CHECK_DEADLOCK FALSE
